@@ -34,7 +34,12 @@ impl<T> ResourceStorage<T> {
 	#[must_use]
 	pub fn new(capacity: usize) -> (Self, ResourceController<T>) {
 		let (new_resource_producer, new_resource_consumer) = RingBuffer::new(capacity);
-		let (unused_resource_producer, unused_resource_consumer) = RingBuffer::new(capacity);
+		// one more slot than there are resources: a resource that is being removed
+		// has already freed its arena slot when it is pushed to this ring buffer. if
+		// the other thread fills that slot in between (emptying this ring buffer too
+		// early to see the removed resource), the arena can be full again while the
+		// removed resource is still waiting in here
+		let (unused_resource_producer, unused_resource_consumer) = RingBuffer::new(capacity + 1);
 		let resources = Arena::new(capacity);
 		let arena_controller = resources.controller();
 		(
